@@ -22,7 +22,7 @@ import math
 import numpy as np
 
 from runtime import oracles_C07_C09 as O
-from runtime.common import close, use_repo, rot_frame
+from runtime.common import close, use_repo, rot_frame, alternate_route
 
 RULE = ("intervals: all (n, min_segment_length, max_interval_length, growth_factor) of the box, non-trivial when >= 2 "
         "candidates are returned or min(M,n) == 2m (boundary); greedy kernel: explicit interval systems x maximisers x "
@@ -227,7 +227,7 @@ def make_detector(inp, sc):
               max_interval_length=inp["M"], growth_factor=inp["g"])
     if inp.get("level") is not None:
         kw["level"] = inp["level"]
-    return SeededBinarySegmentation(**kw)
+    return alternate_route(SeededBinarySegmentation(**kw))
 
 
 def check_detector(rec, inp):
@@ -245,7 +245,12 @@ def check_detector(rec, inp):
         r, e = O.attempt(lambda: make_seeded_intervals(k, 2 * m, M, g))
         return e is None and len(r[0]) == 0
 
-    det, err = O.attempt(lambda: make_detector(inp, sc).fit(rot_frame(Xfit, 1)))
+    # inplace: the training frame object itself is refilled with X after fit and handed to the later calls (same object, other contents:
+    # what is reported describes the contents at the time of the call)
+    buf = rot_frame(Xfit, 1) if inp.get("inplace") and Xfit.shape == X.shape else None
+    det, err = O.attempt(lambda: make_detector(inp, sc).fit(buf if buf is not None else rot_frame(Xfit, 1)))
+    if buf is not None and err is None:
+        buf.iloc[:, :] = X
     if err is not None and O.permitted(err):
         return False, info
     if err is not None:
@@ -267,7 +272,7 @@ def check_detector(rec, inp):
             return True, info
     if not (th >= 0):           # outside the quantifier (tuned on a user-defined score with negative values)
         return False, info
-    res, err = O.attempt(lambda: det.predict(rot_frame(X, 2)))
+    res, err = O.attempt(lambda: det.predict(buf if buf is not None else rot_frame(X, 2)))
     if err is not None and O.permitted(err):
         return False, info
     if err is not None:
@@ -470,10 +475,19 @@ def _enumerate(rec, tier, seed, bound_out):
                                     results.append((inf2["threshold"], inf2["cpts"]))
                             check_monotone(rec, [r for r in results if r[0] is not None and r[0] >= 0], dict(base, threshold_scale=None, scales=scales),
                                            "SeededBinarySegmentation.predict")
+                            if len(scales) >= 2 and (n + m) % 2 == 0:
+                                # numeric scale, fitted on a four times longer series: the selection uses the FITTED threshold (aimed between
+                                # two scores of X), not one recomputed from the series handed to predict
+                                nf = 4 * n
+                                extra = dict(base, threshold_scale=float(ths[0] / (2 * p * math.sqrt(math.log(nf)))), Xfit=O.gen_data(rng, nf, p, "none"))
+                                nt3, _ = check_detector(rec, extra)
+                                rec.case(("det", str(spec), n, p, m, M, g, "fit-on-longer"), nt3, None)
                             for level in ((0.5,) if quick else (0.5, None)):
                                 d = dict(base, threshold_scale=None, level=level)
                                 if (n + m + M) % 3 == 0 and n > 2 * m:      # predict on other data than the training data
                                     d["Xfit"] = O.gen_data(rng, n + 1, p, "none")
+                                elif (n + m + M) % 3 == 1:                  # ... or on the training frame object refilled in place
+                                    d["Xfit"], d["inplace"] = O.gen_data(rng, n, p, "none"), True
                                 nt, _ = check_detector(rec, d)
                                 rec.case(("det", str(spec), n, p, m, M, g, "tuned", level), nt, None)
     tick("end")
